@@ -233,6 +233,8 @@ def sessStep (s : S) (f : List String) : S × List String :=
   | ["dial", "fail"] => ({ s with dials := s.dials ++ [{ ok := false }] }, [])
   | ["dial", "block"] => ({ s with dials := s.dials ++ [{ ok := true, block := true }] }, [])
   | "wpol" :: pol :: _ =>
+    -- a new write policy while a writer stands at the gate of the old one: what the scripted connection does then is its own business
+    if s.held.isSome then (s, ["unsupported write policy replaced under a parked writer"]) else
     match parsePolicy' pol, s.conn with
     | some p, some c => ({ s with conn := some { c with wpol := p } }, [])
     | _, _ => (s, [])
